@@ -1,6 +1,7 @@
 /- Property C05: the property theorems (and nothing else). -/
 import Frugal.Proofs.DecodeSafe
 import Frugal.Proofs.SkipCorrect
+import Frugal.Proofs.DecodeSound2
 import Frugal.Props.Instances
 namespace Frugal.C05
 open Frugal
@@ -27,6 +28,41 @@ theorem skipper_exact (v : TVal) (fuel : Nat) (r : Bytes) (hw : wf v = true) :
     skipType Generated.params fuel v.tag (ser v ++ r) =
       if skipNeed v ≤ fuel then .ok (ser v).length else .err .depth :=
   skipType_ser Instances.params_valid v fuel r hw
+
+/-- **success only on well-formed input**: when `DecodeObject` succeeds with count `n`, the input
+    begins with a well-formed struct message (every scalar in its width, every length and count a
+    non-negative int32 that fits, every id 16 bits, every element of the container's declared type,
+    every field value of the field header's type) whose serialisation is exactly the first `n`
+    bytes.  `wfL` is `wf` except that the element / key / value codes of containers need only be
+    < 128 instead of protocol type codes — they can differ only for *empty* containers inside
+    *skipped* (unknown) fields, which no Thrift skipper inspects. -/
+theorem success_means_wellformed_prefix (S : Schema) (hS : S.ok = true) (sid : Nat) (b : Bytes)
+    (dest v : Val) (n : Nat) (h : decodeM Generated.params S sid b dest = .ok (v, n)) :
+    ∃ fs trailing, wfLFields fs = true ∧ b = ser (.strct fs) ++ trailing ∧ n = (ser (.strct fs)).length :=
+  decodeM_sound S Instances.params_valid hS sid b dest v n h
+
+/-- in particular the count never exceeds the input: the decoder reads nothing outside it -/
+theorem consumed_within_input (S : Schema) (hS : S.ok = true) (sid : Nat) (b : Bytes)
+    (dest v : Val) (n : Nat) (h : decodeM Generated.params S sid b dest = .ok (v, n)) : n ≤ b.length := by
+  obtain ⟨fs, tr, _, e, hn⟩ := success_means_wellformed_prefix S hS sid b dest v n h
+  rw [e, hn]
+  simp
+
+/-- … and conversely on every well-formed message the decoder does what the reference reader does
+    (C03): together, success exactly when the bytes begin with a well-formed message that a reader
+    for the type accepts -/
+theorem wellformed_prefix_decodes_as_reader (S : Schema) (hS : S.ok = true) (sid : Nat)
+    (fs : List (Nat × TVal)) (trailing : Bytes) (dest : Val) (hw : wfFields fs = true) :
+    decodeM Generated.params S sid (ser (.strct fs) ++ trailing) dest =
+      (readMessage Generated.params S sid fs trailing.length dest).mapv (·, (ser (.strct fs)).length) :=
+  decodeM_refines Instances.params_valid S hS sid fs trailing dest hw
+
+/-- the skipper alone: a successful skip of `n ≤ len` bytes skipped exactly one well-formed value of
+    the requested type -/
+theorem skipper_sound (fuel t : Nat) (b : Bytes) (n : Nat)
+    (h : skipType Generated.params fuel t b = .ok n) (hn : n ≤ b.length) :
+    ∃ tv, wfL tv = true ∧ tv.tag = t ∧ b = ser tv ++ b.drop n :=
+  skipType_sound Instances.params_valid fuel t b n h hn
 
 /-- witness that the `panic` outcome is not vacuous in the model: an unguarded fixed-size read of a
     short buffer is a bounds panic (this is what the regenerated guards exclude) -/
